@@ -44,6 +44,8 @@ var endings = []ending{
 	{Name: "uncaught-rethrown-from-catch", Class: "uncaught", Body: "try { throw new Exception(\"a\"); } catch (Exception $e) { throw new Exception(\"b\"); } finally { echo \"f\\n\"; }", Error: true, PriorRuns: true},
 	{Name: "uncaught-in-coalesce-left", Class: "uncaught", Body: "function thrower() { throw new Exception(\"boom\"); }\n$v = thrower() ?? 1;\necho \"carried on\\n\";", Error: true, PriorRuns: true},
 	{Name: "uncaught-in-interpolation", Class: "uncaught", Body: "class T { function m() { throw new Exception(\"boom\"); } }\n$o = new T();\n$v = \"a{$o->m()}b\";\necho \"carried on\\n\";", Error: true, PriorRuns: true},
+	{Name: "uncaught-in-shutdown-function", Class: "uncaught", Body: "register_shutdown_function(function () { echo \"sd\\n\"; throw new Exception(\"late\"); });\necho \"main done\\n\";", Error: true, PriorRuns: true},
+	{Name: "uncaught-in-included-file", Class: "uncaught", Body: `include "inc.EXT";` + "\necho \"after\\n\";", Inc: "throw new Exception(\"in-inc\");\n", Error: true, PriorRuns: true},
 	{Name: "parse-error-unclosed-paren", Class: "parse", Body: `if (`, Error: true},
 	{Name: "parse-error-stray-brace", Class: "parse", Body: `}`, Error: true},
 	{Name: "parse-error-class-without-name", Class: "parse", Body: `class { }`, Error: true},
@@ -70,6 +72,12 @@ type g2Cell struct {
 	Ext    string            `json:"ext"`
 	Files  map[string]string `json:"files"`
 	Main   string            `json:"main"`
+	// G2h cells only (proc_handler.go)
+	Hist   string `json:"hist,omitempty"`   // handler history, e.g. "set(closure);restore"
+	Site   string `json:"site,omitempty"`   // where the history is executed: top | func | include
+	Eff    string `json:"eff,omitempty"`    // reference model: effective handler kind when the script dies
+	Expect string `json:"expect,omitempty"` // error (judged) | control (recorded)
+	ID     string `json:"id,omitempty"`
 }
 
 type g2Obs struct {
@@ -94,6 +102,13 @@ type g2Result struct {
 	Outcomes map[string]bool
 	Harness  []string
 	Controls []string
+	// G2h
+	HSeen     []hSeen
+	HExcluded []string
+	HHists    int
+	HBounds   hBounds
+	HTable    map[string]int
+	WallS     float64
 }
 
 func endingByName(n string) *ending {
@@ -152,6 +167,9 @@ func buildCLI() (string, error) {
 
 func runCell(bin, dir string, c g2Cell) g2Obs {
 	d := filepath.Join(dir, fmt.Sprintf("%s-%s-%s", strings.NewReplacer("(", "", ")", "").Replace(c.Ending), c.Prior, c.Ext))
+	if c.ID != "" {
+		d = filepath.Join(dir, c.ID)
+	}
 	os.MkdirAll(d, 0o755)
 	for n, s := range c.Files {
 		os.WriteFile(filepath.Join(d, n), []byte(s), 0o644)
@@ -182,7 +200,7 @@ func runCell(bin, dir string, c g2Cell) g2Obs {
 // judgeCell returns the violated clauses of an error ending.
 func judgeCell(e *ending, c g2Cell, o g2Obs) []string {
 	var cl []string
-	if !e.Error {
+	if !e.Error || c.Expect == "control" {
 		return nil
 	}
 	if o.Status == 0 {
@@ -211,7 +229,7 @@ func runCells(bin string, cells []g2Cell) *g2Result {
 	defer os.RemoveAll(dir)
 	obs := make([]g2Obs, len(cells))
 	var wg sync.WaitGroup
-	sem := make(chan struct{}, 4)
+	sem := make(chan struct{}, 6)
 	for i := range cells {
 		wg.Add(1)
 		go func(i int) {
@@ -234,6 +252,13 @@ func runCells(bin string, cells []g2Cell) *g2Result {
 		if c.Prior != "none" && e.PriorRuns {
 			flushed = fmt.Sprint(strings.Contains(o.Stdout, preOut))
 		}
+		if c.Hist != "" {
+			// G2h cell: outcomes are aggregated over endings / extensions; keys are derived in reportHandlers
+			ops := strings.Split(c.Hist, ";")
+			res.Outcomes[fmt.Sprintf("g2h:last=%s site=%s eff=%s prior=%s handler-ran=%v status=%d stderr=%v", ops[len(ops)-1], c.Site, c.Eff, c.Prior, strings.Contains(o.Stdout, hMarker), o.Status, strings.TrimSpace(o.Stderr) != "")] = true
+			res.HSeen = append(res.HSeen, hSeen{Cell: c, Obs: o, Clauses: judgeCell(e, c, o)})
+			continue
+		}
 		res.Outcomes[fmt.Sprintf("g2:%s/%s status=%d stderr=%v prior-on-stdout=%s", c.Ending, c.Prior, o.Status, strings.TrimSpace(o.Stderr) != "", flushed)] = true
 		if e.Class == "control" {
 			if e.Name == "normal-end" && (o.Status != 0 || (c.Prior != "ob" && !strings.Contains(o.Stdout, "done\n"))) {
@@ -251,7 +276,14 @@ func runCells(bin string, cells []g2Cell) *g2Result {
 	return res
 }
 
-func runG2(seed int64) *g2Result {
+func runG2(seed int64, quick bool) *g2Result {
+	t0 := time.Now()
+	res := runG2x(seed, quick)
+	res.WallS = float64(time.Since(t0).Milliseconds()) / 1000
+	return res
+}
+
+func runG2x(seed int64, quick bool) *g2Result {
 	bin, err := buildCLI()
 	if err != nil {
 		return &g2Result{Bin: bin, Harness: []string{"cannot build the CLI: " + err.Error()}}
@@ -264,7 +296,34 @@ func runG2(seed int64) *g2Result {
 			}
 		}
 	}
-	return runCells(bin, cells)
+	// base menu + the G2h baseline probes (each handler op alone, followed by a normal end)
+	res := runCells(bin, append(cells, hControlCells()...))
+	excluded := map[string]bool{}
+	for _, s := range res.HSeen {
+		if s.Obs.Status != 0 || !strings.Contains(s.Obs.Stdout, preOut) || !strings.Contains(s.Obs.Stdout, "done\n") {
+			k := s.Cell.Hist + "@" + s.Cell.Site + "." + s.Cell.Ext
+			excluded[k] = true
+			res.HExcluded = append(res.HExcluded, fmt.Sprintf("%s: followed by a normal end gave status %d stdout %q stderr %q", k, s.Obs.Status, trunc(s.Obs.Stdout, 80), trunc(s.Obs.Stderr, 120)))
+		}
+	}
+	sort.Strings(res.HExcluded)
+	res.HSeen = nil
+	res.HBounds = hTierBounds(quick)
+	hc, nh := hCells(res.HBounds, excluded)
+	res.HHists = nh
+	r2 := runCells(bin, hc)
+	res.Cells += r2.Cells
+	res.HSeen = r2.HSeen
+	res.HTable = map[string]int{}
+	for _, s := range r2.HSeen {
+		ops := strings.Split(s.Cell.Hist, ";")
+		res.HTable[fmt.Sprintf("last=%s eff=%s expect=%s handler-ran=%v status=%d stderr=%v", ops[len(ops)-1], s.Cell.Eff, s.Cell.Expect, strings.Contains(s.Obs.Stdout, hMarker), s.Obs.Status, strings.TrimSpace(s.Obs.Stderr) != "")]++
+	}
+	res.Harness = append(res.Harness, r2.Harness...)
+	for o := range r2.Outcomes {
+		res.Outcomes[o] = true
+	}
+	return res
 }
 
 func replayG2(cell g2Cell) *g2Result {
@@ -273,6 +332,11 @@ func replayG2(cell g2Cell) *g2Result {
 		return &g2Result{Bin: bin, Harness: []string{"cannot build the CLI: " + err.Error()}}
 	}
 	r := runCells(bin, []g2Cell{cell})
+	for _, s := range r.HSeen {
+		for _, cl := range s.Clauses {
+			r.Fails = append(r.Fails, g2Fail{Cell: s.Cell, Obs: s.Obs, Class: "uncaught", Clause: cl})
+		}
+	}
 	return r
 }
 
@@ -350,6 +414,13 @@ func (r *g2Result) report(c *ev.Check) {
 }
 
 func requirement(clause string) string {
+	if strings.Contains(clause, "+") {
+		var p []string
+		for _, c := range strings.Split(clause, "+") {
+			p = append(p, requirement(c))
+		}
+		return strings.Join(p, "; ")
+	}
 	switch clause {
 	case "exit-status":
 		return "a script that ends with an uncaught throwable or does not parse exits with a non-zero status"
